@@ -685,9 +685,19 @@ class BroadcastJoin(Merge, PartitionsFiltered):
     }
 
     def _divisions(self):
+        # The index of the non-broadcast side only survives if the broadcast
+        # side is joined through its index
         if self.broadcast_side == "left":
-            return self.right._divisions()
-        return self.left._divisions()
+            divisions = self.right._divisions()
+            keep = self.left_index or _contains_index_name(
+                self.left._meta, self.left_on
+            )
+        else:
+            divisions = self.left._divisions()
+            keep = self.right_index or _contains_index_name(
+                self.right._meta, self.right_on
+            )
+        return divisions if keep else (None,) * len(divisions)
 
     def _simplify_up(self, parent, dependents):
         return
